@@ -252,6 +252,15 @@ def r13(ctx, R):
         while isinstance(t, ast.Subscript):
             keys.append(t.slice)
             t = t.value
+        if len(keys) == 1:
+            # a flat map keyed by the (provider, class) pair
+            k0 = keys[0]
+            if isinstance(k0, ast.Name):
+                from psa.rules.c05 import single_def as _sd
+                d0 = _sd(f, k0.id)
+                k0 = d0.value if d0 is not None else k0
+            if isinstance(k0, ast.Tuple) and len(k0.elts) == 2:
+                keys = list(k0.elts)
         okk = len(keys) == 2
         for k in keys:
             from psa.rules.c05 import single_def
